@@ -4,6 +4,7 @@ import (
 	"encoding/hex"
 	"fmt"
 	"math/big"
+	"reflect"
 	"runtime/debug"
 	"sort"
 	"strings"
@@ -15,6 +16,7 @@ import (
 	sdkerrors "github.com/cosmos/cosmos-sdk/types/errors"
 	txtypes "github.com/cosmos/cosmos-sdk/types/tx"
 	"github.com/cosmos/gogoproto/proto"
+	"github.com/ethereum/go-ethereum/accounts/abi"
 	"github.com/ethereum/go-ethereum/common"
 	"google.golang.org/protobuf/encoding/protowire"
 	"pgregory.net/rapid"
@@ -248,7 +250,22 @@ func genC20Precompile(t *rapid.T) c20Case {
 	sort.Strings(methods)
 	name := rapid.SampledFrom(methods).Draw(t, "method")
 	data := append([]byte{}, ids[name]...)
-	switch rapid.IntRange(0, 4).Draw(t, "shape") {
+	switch rapid.IntRange(0, 6).Draw(t, "shape") {
+	case 5, 6: // ABI-well-formed arguments generated from the method's input types: every array gets its own length, numbers, strings and
+		// addresses come from boundary pools - decoding succeeds, the argument struct's Validate() and the handler see semantically extreme values
+		var ins abi.Arguments
+		if target == "staking" {
+			ins = stakingtypes.GetABI().Methods[name].Inputs
+		} else {
+			ins = crosschaintypes.GetABI().Methods[name].Inputs
+		}
+		vals := make([]interface{}, 0, len(ins))
+		for i, in := range ins {
+			vals = append(vals, c20ABIValue(t, in.Type, fmt.Sprintf("%s.%d", in.Name, i), 0).Interface())
+		}
+		if enc, err := ins.Pack(vals...); err == nil {
+			data = append(data, enc...)
+		}
 	case 0: // arbitrary tail
 		data = append(data, rapid.SliceOfN(rapid.Byte(), 0, 256).Draw(t, "tail")...)
 	case 1: // word-aligned words with hostile offsets / lengths
@@ -293,6 +310,94 @@ func genC20Precompile(t *rapid.T) c20Case {
 		to = sim.CrosschainAddr
 	}
 	return c20Case{Kind: "precompile", To: to.String(), Data: hex.EncodeToString(data), Value: int64(rapid.SampledFrom([]int{0, 0, 1, 1000}).Draw(t, "value")), Note: target + "." + name}
+}
+
+var c20ABIStrings = []string{"eth", "bsc", "tron", "polygon", "", "nochain", "ETH", "eth ", "ibc/0/cosmos", "chain/gravity", "erc20", "module/evm", "gravity",
+	"fxvaloper1", "0x", "0x0000000000000000000000000000000000000000", "T" + strings.Repeat("1", 33), strings.Repeat("a", 300), "\x00", "/", "ibc/", "px/transfer/channel-0"}
+
+var c20ABINumbers = []string{"0", "1", "2", "1000", "9223372036854775807", "9223372036854775808", "18446744073709551615", "18446744073709551616",
+	"57896044618658097711785492504343953926634992332820282019728792003956564819967", "57896044618658097711785492504343953926634992332820282019728792003956564819968",
+	"115792089237316195423570985008687907853269984665640564039457584007913129639935"}
+
+// c20ABIValue draws a value of the go type go-ethereum's ABI packer expects for typ.
+func c20ABIValue(t *rapid.T, typ abi.Type, label string, depth int) reflect.Value {
+	f := base()
+	switch typ.T {
+	case abi.SliceTy, abi.ArrayTy:
+		n := typ.Size
+		if typ.T == abi.SliceTy {
+			n = rapid.SampledFrom([]int{0, 0, 1, 1, 2, 3, 5}).Draw(t, label+".len")
+		}
+		var v reflect.Value
+		if typ.T == abi.SliceTy {
+			v = reflect.MakeSlice(typ.GetType(), n, n)
+		} else {
+			v = reflect.New(typ.GetType()).Elem()
+		}
+		for i := 0; i < n; i++ {
+			v.Index(i).Set(c20ABIValue(t, *typ.Elem, fmt.Sprintf("%s[%d]", label, i), depth+1))
+		}
+		return v
+	case abi.AddressTy:
+		pool := []common.Address{{}, f.Users[0].Hex(), f.Users[1].Hex(), f.Users[2].Hex(), sim.StakingAddr, sim.CrosschainAddr, f.Token("USDT").ERC20, f.Token("FX").ERC20,
+			common.HexToAddress("0xffffffffffffffffffffffffffffffffffffffff")}
+		return reflect.ValueOf(rapid.SampledFrom(pool).Draw(t, label))
+	case abi.UintTy, abi.IntTy:
+		n, _ := new(big.Int).SetString(rapid.SampledFrom(c20ABINumbers).Draw(t, label), 10)
+		if typ.T == abi.IntTy && rapid.Bool().Draw(t, label+".neg") {
+			n.Neg(n)
+		}
+		max := new(big.Int).Lsh(big.NewInt(1), uint(typ.Size))
+		if typ.T == abi.IntTy {
+			max.Rsh(max, 1)
+		}
+		if n.CmpAbs(max) >= 0 {
+			n.Mod(n, max)
+		}
+		switch typ.GetType().Kind() {
+		case reflect.Uint8, reflect.Uint16, reflect.Uint32, reflect.Uint64:
+			v := reflect.New(typ.GetType()).Elem()
+			v.SetUint(n.Uint64())
+			return v
+		case reflect.Int8, reflect.Int16, reflect.Int32, reflect.Int64:
+			v := reflect.New(typ.GetType()).Elem()
+			v.SetInt(n.Int64())
+			return v
+		}
+		return reflect.ValueOf(n)
+	case abi.BoolTy:
+		return reflect.ValueOf(rapid.Bool().Draw(t, label))
+	case abi.StringTy:
+		s := rapid.SampledFrom(c20ABIStrings).Draw(t, label)
+		switch rapid.IntRange(0, 5).Draw(t, label+".k") {
+		case 0:
+			s = f.ValKeys[0].Val().String()
+		case 1:
+			s = sim.ExtAddrN("eth", "rcv", 1)
+		case 2:
+			s = rapid.SampledFrom(c20Hostile).Draw(t, label+".h")
+		}
+		return reflect.ValueOf(s)
+	case abi.BytesTy:
+		return reflect.ValueOf(rapid.SliceOfN(rapid.Byte(), 0, rapid.SampledFrom([]int{0, 1, 4, 32, 33, 200}).Draw(t, label+".max")).Draw(t, label))
+	case abi.FixedBytesTy:
+		v := reflect.New(typ.GetType()).Elem()
+		src := []byte(rapid.SampledFrom(c20ABIStrings).Draw(t, label))
+		if rapid.IntRange(0, 3).Draw(t, label+".raw") == 0 {
+			src = rapid.SliceOfN(rapid.Byte(), typ.Size, typ.Size).Draw(t, label+".bytes")
+		}
+		for i := 0; i < typ.Size && i < len(src); i++ {
+			v.Index(i).SetUint(uint64(src[i]))
+		}
+		return v
+	case abi.TupleTy:
+		v := reflect.New(typ.GetType()).Elem()
+		for i, el := range typ.TupleElems {
+			v.Field(i).Set(c20ABIValue(t, *el, fmt.Sprintf("%s.%s", label, typ.TupleRawNames[i]), depth+1))
+		}
+		return v
+	}
+	return reflect.Zero(typ.GetType())
 }
 
 // c20ValidArgs packs plausible arguments for a method (best effort; nil if not covered).
